@@ -185,6 +185,13 @@ def iso_subfunction_tables(m: Model, r: Report, rid: str) -> None:
         unknown = sorted(k for k in mem if k not in table)
         if unknown:
             r.note("enum members without an oracle value", f"{c.qualname}: {unknown}")
+    for cname, needed in iso14229.VALUE_COVERAGE.items():
+        c = m.require_class(f"{CONST}.{cname}")
+        have = set((m.enum_members(c) or {}).values())
+        missing = {v: nm for v, nm in needed.items() if v not in have}
+        lenient = any("_missing_" in k.methods for k in m.mro(c))
+        r.check(not missing or lenient, rid, f"{c.qualname}#covers-iso-values", f"{cname} has no member for {', '.join(f'{v:#04x} ({nm})' for v, nm in sorted(missing.items()))}: "
+                "a genuine reply carrying that value is refused as malformed (the enum coercion raises)", loc=c.loc)
     if n < 8:
         raise AnalysisError("sub-function enums not found")
 
